@@ -253,7 +253,7 @@ def _emit_to(wfd):
 
 
 def fork_child(fn):
-    """Run fn(emit) in a forked child; -> (exit status code or -signal, [emitted objects]).
+    """Start fn(emit) in a forked child; -> (pid, read end of its report pipe); see collect_child.
 
     A child that hits a harness exception exits 3 after emitting {"harness": traceback}.
     """
@@ -911,7 +911,7 @@ def fault_tasks(quick):
 
 def race_tasks(quick):
     tasks = []
-    reps = 3 if quick else 20
+    reps = 2 if quick else 20
     for n in range(2, 9):
         for state in STATES:
             for kind, stagger in (("plain", 0), ("big", 0), ("big", 1)) if not quick else (("plain", 0), ("big", n % 2)):
